@@ -8,3 +8,9 @@ package filtering
 func (d *DNSFilter) VerifC14Refresh() (updated int, isNetErr, ok bool) {
 	return d.tryRefreshFilters(true, false, true)
 }
+
+// VerifC14SetURL changes the address of the block list oldURL exactly as the
+// control API handler of set_url does.
+func (d *DNSFilter) VerifC14SetURL(oldURL, newURL string) (restart bool, err error) {
+	return d.filterSetProperties(oldURL, FilterYAML{Enabled: true, Name: "c14 list", URL: newURL}, false)
+}
